@@ -618,7 +618,8 @@ func verifServicePreserved(a, b *descriptorpb.ServiceDescriptorProto) bool {
 // HarnessAppendToServiceMessages: a service method (request with 0..1
 // properties; response absent, declared empty, or with one property) and a
 // publish topic message get 1..E+1 fields appended to the request, the
-// response or the topic message: every file, message, field, service and method
+// response or a topic message (publish, request/reply or upsert — the latter
+// two carry an implicit leading field): every file, message, field, service and method
 // of the first compilation is in the second, unchanged.
 func HarnessAppendToServiceMessages() {
 	reqProps := ndIntRange("requestProps", 0, 1)
@@ -628,6 +629,12 @@ func HarnessAppendToServiceMessages() {
 		verifAssume(false) // nothing declared to append to
 	}
 	edits := 1 + ndIntRange("moreEdits", 0, verifParam("E", 0))
+	topicKind := 0 // publish; reqres and upsert messages get an implicit leading field
+	topicFieldsAtStart := 1
+	if target == 2 {
+		topicKind = ndChoice("topicKind", 3)
+		topicFieldsAtStart = ndIntRange("topicFields", 0, 1)
+	}
 	build := func(applied int) *sourcedef_j5pb.SourceFile {
 		req := []*schema_j5pb.ObjectProperty{}
 		for i := 0; i < reqProps; i++ {
@@ -640,7 +647,10 @@ func HarnessAppendToServiceMessages() {
 		case 2:
 			resp = &sourcedef_j5pb.AnonymousObject{Properties: []*schema_j5pb.ObjectProperty{{Name: "result", Schema: verifField(fString)}}}
 		}
-		topicFields := []*schema_j5pb.ObjectProperty{{Name: "payload", Schema: verifField(fString)}}
+		topicFields := []*schema_j5pb.ObjectProperty{}
+		for i := 0; i < topicFieldsAtStart; i++ {
+			topicFields = append(topicFields, &schema_j5pb.ObjectProperty{Name: "payload", Schema: verifField(fString)})
+		}
 		for e := 0; e < applied; e++ {
 			p := &schema_j5pb.ObjectProperty{Name: verifPropNames[4+e], Schema: verifField(fString)}
 			switch target {
@@ -657,6 +667,16 @@ func HarnessAppendToServiceMessages() {
 			{Name: "Ping", HttpPath: "/ping", HttpMethod: client_j5pb.HTTPMethod_POST, Request: &sourcedef_j5pb.AnonymousObject{Properties: req}, Response: resp}}}
 		topic := &sourcedef_j5pb.Topic{Name: "Gadget", Type: &sourcedef_j5pb.TopicType{Type: &sourcedef_j5pb.TopicType_Publish_{Publish: &sourcedef_j5pb.TopicType_Publish{
 			Messages: []*sourcedef_j5pb.TopicMethod{{Name: &evt, Fields: topicFields}}}}}}
+		switch topicKind {
+		case 1:
+			topic.Type = &sourcedef_j5pb.TopicType{Type: &sourcedef_j5pb.TopicType_Reqres{Reqres: &sourcedef_j5pb.TopicType_ReqRes{
+				Request: []*sourcedef_j5pb.TopicMethod{{Fields: topicFields}},
+				Reply:   []*sourcedef_j5pb.TopicMethod{{Fields: []*schema_j5pb.ObjectProperty{{Name: "answer", Schema: verifField(fString)}}}},
+			}}}
+		case 2:
+			topic.Type = &sourcedef_j5pb.TopicType{Type: &sourcedef_j5pb.TopicType_Upsert_{Upsert: &sourcedef_j5pb.TopicType_Upsert{
+				EntityName: "a.v1.Thing", Message: &sourcedef_j5pb.TopicMethod{Fields: topicFields}}}}
+		}
 		return verifSourceFile(
 			&sourcedef_j5pb.RootElement{Type: &sourcedef_j5pb.RootElement_Service{Service: svc}},
 			&sourcedef_j5pb.RootElement{Type: &sourcedef_j5pb.RootElement_Topic{Topic: topic}})
@@ -726,4 +746,59 @@ func HarnessSummaryDependencies() {
 		}
 	}
 	verifAssert(found, "foreign-type-listed-as-dependency")
+}
+
+// ---------- C07: every documented way of naming an imported package ----------
+
+// HarnessImportSpellings: a type of another package can be referred to by the
+// full package name, by the package's short name (the segment before the
+// version: "other" for other.v1 and for deep.other.v1), or by an alias given in
+// the import; each spelling must resolve to the same type and import its file.
+func HarnessImportSpellings() {
+	deep := ndBool("threeSegmentPackage")
+	pkg := "other.v1"
+	if deep {
+		pkg = "deep.other.v1"
+	}
+	imp := &sourcedef_j5pb.Import{Path: pkg}
+	spelling := ndChoice("spelling", 3)
+	refPkg := pkg
+	switch spelling {
+	case 1:
+		refPkg = "other" // the short name
+	case 2:
+		imp.Alias = "oth"
+		refPkg = "oth"
+	}
+	f := &schema_j5pb.Field{Type: &schema_j5pb.Field_Object{Object: &schema_j5pb.ObjectField{Schema: &schema_j5pb.ObjectField_Ref{Ref: &schema_j5pb.Ref{Package: refPkg, Schema: "Foreign"}}}}}
+	src := &sourcedef_j5pb.SourceFile{Path: "a/v1/x.j5s", Package: &sourcedef_j5pb.Package{Name: "a.v1"}, Imports: []*sourcedef_j5pb.Import{imp},
+		Elements: []*sourcedef_j5pb.RootElement{verifObjectElement("Thing", []*schema_j5pb.ObjectProperty{{Name: "ref", Schema: f}})}}
+	summary, err := SourceSummary(src, verifWarnings{})
+	verifAssert(err == nil && summary != nil, "summary-built")
+	if err != nil || summary == nil {
+		return
+	}
+	found := false
+	for _, dep := range summary.TypeDependencies {
+		if dep.Package == pkg && dep.Schema == "Foreign" {
+			found = true
+		}
+	}
+	verifAssert(found, "dependency-on-the-full-package-name")
+	files, err := ConvertJ5File(verifSelfDeps{summary: summary}, src)
+	verifAssert(err == nil && len(files) == 1, "every-spelling-compiles")
+	if err != nil || len(files) != 1 {
+		return
+	}
+	msg := verifFindMessage(files[0], "Thing")
+	if msg == nil || len(msg.Field) != 1 {
+		verifFail("field-emitted")
+		return
+	}
+	verifAssert(msg.Field[0].GetTypeName() == "."+pkg+".Foreign", "resolves-to-the-imported-type")
+	want := "other/v1/foreign.proto"
+	if deep {
+		want = "deep/other/v1/foreign.proto"
+	}
+	verifAssert(verifHasDep(files[0], want), "imported-type-file-is-a-dependency")
 }
